@@ -47,8 +47,18 @@ enum PK {
     /// a second installation on a function this injector has ALREADY faked is refused (signature mismatch): the
     /// function is a refused target too - untouched means its earlier fake stays in effect, bytes unchanged
     SigMismatchOnFakedTarget,
+    /// user panic; a destructor that runs during the unwinding installs one more fake through the injector and
+    /// calls the function (clean-up code that stubs something out)
+    InstallDuringUnwind,
+    /// 80 fakes are live at once (repeated targets included), then the user panics
+    ManyLiveFakes,
+    /// the platform refuses to (re-)make pages read+execute (W^X / execmem policy) while one more fake is installed
+    /// and called; no panic is injected: the library either works or refuses loudly, it does not crash
+    MprotectRxRefused,
+    /// the value expression of an async fake panics; the await is contained by the test body, which goes on
+    UserInAsyncValue,
 }
-const KINDS_ALL: [PK; 20] = [PK::SigMismatchOnFakedTarget, PK::UserMunmapFails, PK::MprotectFailSecondPage, PK::UserNonString, PK::UserInReturns, PK::UserInClosure, PK::OverCallCaught, PK::None, PK::User, PK::WhenReject, PK::OverCall, PK::SigMismatch, PK::SigMismatchFakeMacro, PK::NullTarget, PK::NullFake, PK::BoolOnNonBool, PK::AsyncWrongOutput, PK::MmapFail, PK::MprotectFail, PK::UncheckedMix];
+const KINDS_ALL: [PK; 24] = [PK::InstallDuringUnwind, PK::ManyLiveFakes, PK::MprotectRxRefused, PK::UserInAsyncValue, PK::SigMismatchOnFakedTarget, PK::UserMunmapFails, PK::MprotectFailSecondPage, PK::UserNonString, PK::UserInReturns, PK::UserInClosure, PK::OverCallCaught, PK::None, PK::User, PK::WhenReject, PK::OverCall, PK::SigMismatch, PK::SigMismatchFakeMacro, PK::NullTarget, PK::NullFake, PK::BoolOnNonBool, PK::AsyncWrongOutput, PK::MmapFail, PK::MprotectFail, PK::UncheckedMix];
 
 #[derive(Clone, Debug)]
 struct Script {
@@ -132,6 +142,7 @@ struct Obs {
     refused_target_intact: bool,
     injected_msg_class: String,
     same_thread_again: String,
+    unwind_install_saw: i32,
 }
 
 /// the body that runs on a worker thread, under catch_unwind
@@ -210,6 +221,53 @@ fn body(pool: &Pool, s: &Script, rng: &mut Rng, obs: &mut Obs) {
             PK::None => {}
             PK::User => panic!("USER: injected at position {}", s.pos),
             PK::UserNonString => std::panic::panic_any(0xC05_u32),
+            PK::InstallDuringUnwind => {
+                struct InstallsOnDrop(*mut InjectorPP);
+                impl Drop for InstallsOnDrop {
+                    fn drop(&mut self) {
+                        // std::thread::panicking() is true here
+                        let inj = unsafe { &mut *self.0 };
+                        inj.when_called(injectorpp::func!(fn (victim)() -> i32)).will_execute_raw(injectorpp::func!(fn (fk2)() -> i32));
+                        UNWIND_INSTALL_SAW.with(|c| c.set(victim()));
+                    }
+                }
+                UNWIND_INSTALL_SAW.with(|c| c.set(-1));
+                let _g = InstallsOnDrop(inj as *mut InjectorPP);
+                panic!("USER: injected at position {} (a destructor installs a fake while this unwinds)", s.pos)
+            }
+            PK::ManyLiveFakes => {
+                let cands: Vec<usize> = pool.targets.iter().enumerate().filter(|(_, t)| t.fam == Fam::I32 && t.name != "r0" && t.name != "r1").map(|(i, _)| i).collect();
+                for k in 0..80usize {
+                    let ti = cands[3 + k % (cands.len() - 3)];
+                    let _ = install(inj, &pool.targets[ti], Kind::Raw, k, 0);
+                }
+                panic!("USER: injected at position {} with 80 more fakes live", s.pos)
+            }
+            PK::MprotectRxRefused => {
+                ip::FAIL_MPROTECT_PROT.store((libc::PROT_READ | libc::PROT_EXEC) as i64, Ordering::SeqCst);
+                let r = std::panic::catch_unwind(std::panic::AssertUnwindSafe(|| {
+                    inj.when_called(injectorpp::func!(fn (victim)() -> i32)).will_execute_raw(injectorpp::func!(fn (fk2)() -> i32));
+                }));
+                ip::disarm_all();
+                match r {
+                    // installed all the same: then it works
+                    Ok(()) => {
+                        if victim() != 0x7102 {
+                            panic!("USER: HARNESS-MODEL fake installed under a refusing platform is not in effect");
+                        }
+                    }
+                    // refused loudly: fine too, the panic goes on like any refusal
+                    Err(e) => std::panic::resume_unwind(e),
+                }
+            }
+            PK::UserInAsyncValue => {
+                inj.when_called_async(injectorpp::async_func!(refuse_async(0), u32)).will_return_async(injectorpp::async_return!(raise_user() as u32, u32));
+                let r = std::panic::catch_unwind(|| block_on(refuse_async(1)).0);
+                if r.is_ok() {
+                    panic!("USER: HARNESS-MODEL the value expression of the async fake did not run");
+                }
+                let _ = panicobs::take();
+            }
             PK::SigMismatchOnFakedTarget => match last_installed.get() {
                 Some((ti, expect)) if matches!(pool.targets[ti].fam, Fam::I32 | Fam::Bool | Fam::Gen8 | Fam::Gen16 | Fam::Gen32 | Fam::Method | Fam::LibcInt | Fam::LibcLong | Fam::LibcStr) => {
                     let t = &pool.targets[ti];
@@ -319,6 +377,7 @@ fn body(pool: &Pool, s: &Script, rng: &mut Rng, obs: &mut Obs) {
 static HOLDER_IN: std::sync::atomic::AtomicBool = std::sync::atomic::AtomicBool::new(false);
 static WAITER_ASKING: std::sync::atomic::AtomicBool = std::sync::atomic::AtomicBool::new(false);
 thread_local! {
+    static UNWIND_INSTALL_SAW: std::cell::Cell<i32> = const { std::cell::Cell::new(-1) };
     static REFUSE_IMAGE: std::cell::RefCell<Vec<u8>> = const { std::cell::RefCell::new(Vec::new()) };
 }
 
@@ -378,7 +437,7 @@ pub fn run(ctx: &Ctx) {
         let h = std::thread::spawn(move || {
             REFUSE_IMAGE.with(|c| *c.borrow_mut() = ri);
             let mut rng = Rng::new(seed ^ hash64(s2.mix.wrapping_mul(77) ^ 0xC05));
-            let mut obs = Obs { refused_events: 0, refused_target_intact: true, injected_msg_class: String::new(), same_thread_again: String::new() };
+            let mut obs = Obs { refused_events: 0, refused_target_intact: true, injected_msg_class: String::new(), same_thread_again: String::new(), unwind_install_saw: -1 };
             let (r, msgs) = panicobs::observe(|| body(&pool2, &s2, &mut rng, &mut obs));
             ip::disarm_all();
             if let Err(m) = &r {
@@ -393,6 +452,7 @@ pub fn run(ctx: &Ctx) {
                 drop(p);
                 a
             });
+            obs.unwind_install_saw = UNWIND_INSTALL_SAW.with(|c| c.get());
             obs.same_thread_again = match again {
                 Ok(true) => String::new(),
                 Ok(false) => "preventer not active".into(),
@@ -400,6 +460,19 @@ pub fn run(ctx: &Ctx) {
             };
             (r.is_ok(), r.err().unwrap_or_default(), msgs, obs)
         });
+        {
+            // bounded progress: a scripted body takes microseconds; 30 s without it coming back means the scope exit
+            // (or the install) does not terminate
+            let t0 = std::time::Instant::now();
+            while !h.is_finished() && t0.elapsed() < Duration::from_secs(30) {
+                std::thread::sleep(Duration::from_micros(200));
+            }
+            if !h.is_finished() {
+                out::outcome(idx, &class, Verdict::Violated, "scripted-body-did-not-come-back-within-30s", &J::new().s("script", &format!("{:?}", s)));
+                out::summary(&J::new().n("scripts", idx));
+                std::process::exit(75);
+            }
+        }
         let (ok, msg, msgs, obs) = match h.join() {
             Ok(x) => x,
             Err(_) => {
@@ -441,7 +514,14 @@ pub fn run(ctx: &Ctx) {
                     "no-panic"
                 }
             }
-            PK::User | PK::UserNonString | PK::UserInReturns | PK::UserInClosure | PK::UserMunmapFails => "user",
+            PK::User | PK::UserNonString | PK::UserInReturns | PK::UserInClosure | PK::UserMunmapFails | PK::InstallDuringUnwind | PK::ManyLiveFakes => "user",
+            PK::MprotectRxRefused | PK::UserInAsyncValue => {
+                if unsat {
+                    "count-mismatch"
+                } else {
+                    "no-panic"
+                }
+            }
             PK::MprotectFailSecondPage => "mprotect-failed",
             PK::OverCallCaught => "count-mismatch",
             PK::WhenReject => "unexpected-args",
@@ -459,7 +539,14 @@ pub fn run(ctx: &Ctx) {
         }
         // the property does not fix the wording of library panics: what is judged is whether a panic
         // was raised (and that a user panic arrives as the user raised it)
-        let ok_class = if expect == "no-panic" { seen == "no-panic" } else if expect == "user" { seen == "user" } else { seen != "no-panic" && seen != "user" };
+        let ok_class = if s.kind == PK::ManyLiveFakes && seen != "no-panic" {
+            // the user's panic, or a loud refusal by the library on the way (whether it may limit the number of live
+            // fakes is C02's question): what C05 asks is judged below - everything restored, guard usable
+            true
+        } else if s.kind == PK::MprotectRxRefused && seen != "user" {
+            // works, or refuses loudly (any library panic): both are what the property asks for
+            true
+        } else if expect == "no-panic" { seen == "no-panic" } else if expect == "user" { seen == "user" } else { seen != "no-panic" && seen != "user" };
         if sig.is_empty() && !ok_class {
             sig = format!("expected-{}-saw-{}", if expect == "no-panic" || expect == "user" { expect } else { "a-library-panic" }, seen);
         }
@@ -510,6 +597,10 @@ pub fn run(ctx: &Ctx) {
             } else if sig.is_empty() {
                 sig = "trampoline-left-mapped-after-unwind".into();
             }
+        }
+        if sig.is_empty() && s.kind == PK::InstallDuringUnwind && obs.unwind_install_saw != 0x7102 {
+            sig = "fake-installed-by-a-destructor-during-unwinding-not-in-effect".into();
+            d = d.n("the_call_in_the_destructor_returned", obs.unwind_install_saw);
         }
         if sig.is_empty() && !obs.same_thread_again.is_empty() {
             sig = "the-thread-whose-scope-unwound-cannot-get-a-guard-again".into();
